@@ -32,6 +32,9 @@ func c03Schema(r *rand.Rand) models.IndexSchema {
 
 func (c03) Generate(r *rand.Rand, tier string) (sim.Config, any) {
 	cfg := RandomSimConfig(r)
+	old := vecStyle
+	vecStyle = pickVecStyle(r)
+	defer func() { vecStyle = old }()
 	schema := c03Schema(r)
 	if r.IntN(2) == 0 {
 		// insert-only, small: the first exactness regime
@@ -40,12 +43,25 @@ func (c03) Generate(r *rand.Rand, tier string) (sim.Config, any) {
 		vp := schema["vv"].VectorVamana
 		maxN := min(vp.DegreeBound, vp.SearchSize-1)
 		total := 3 + r.IntN(maxN-2)
+		switch r.IntN(5) { // the regime's boundary is where off-by-one errors live
+		case 0, 1:
+			total = maxN
+		case 2:
+			total = maxN - 1
+		}
 		next := 0
 		for next < total {
 			n := min(total-next, 1+r.IntN(12))
+			if vecStyle == "chain" || vecStyle == "ray" {
+				n = 1
+			}
 			var batch []PointSpec
 			for k := 0; k < n; k++ {
-				batch = append(batch, PointSpec{ID: next, Doc: GenDoc(r, schema, 0.95)})
+				d := GenDoc(r, schema, 0.95)
+				if vecStyle == "chain" || vecStyle == "ray" {
+					applyChainVectors(d, schema, next)
+				}
+				batch = append(batch, PointSpec{ID: next, Doc: d})
 				next++
 			}
 			p.Ops = append(p.Ops, Op{Kind: "insert", Points: batch})
